@@ -1692,18 +1692,16 @@ class AstEval:
     async def ast_boolop(self, arg):
         """Evaluate boolean operators and and or."""
         if isinstance(arg.op, ast.And):
-            val = True
-            for arg1 in arg.values:
+            for arg1 in arg.values[:-1]:
                 val = await self.aeval(arg1)
                 if not val:
                     return val
-            return val
-        val = False
-        for arg1 in arg.values:
+            return await self.aeval(arg.values[-1])
+        for arg1 in arg.values[:-1]:
             val = await self.aeval(arg1)
             if val:
                 return val
-        return val
+        return await self.aeval(arg.values[-1])
 
     async def eval_elt_list(self, elts):
         """Evaluate and star list elements."""
